@@ -182,6 +182,26 @@ def run(ctx):
     resA = [r[1] for r in resA]; resB = [r[1] for r in resB]
     pa = sum(len(r["rows"]) for r in resA); pb = sum(len(r["rows"]) for r in resB)
     ctx.log(f"(A) unescape vs reference: {pa} paths; (B) accepted literal tokens: {pb} accepting paths; {time.time()-t0:.1f}s")
+    # ---- (C) round trip through concrete syntax
+    t1 = time.time()
+    resC = run_roundtrip(ctx, P)
+    pc = sum(len(r["rows"]) for r in resC)
+    eventsC = []; rejectedC = 0
+    for r in resC:
+        for row in r["rows"]:
+            if row.get("event"): eventsC.append(f"{r['expr']}: {row['event']}"); continue
+            if row["res"] == "consume_rules returned errors":
+                rejectedC += 1; continue       # the written rule is not a valid grammar (e.g. b?*): outside the round-trip clause
+            if row["res"] != "ok" and len(ctx.violations) < 10:
+                txt = bytes.fromhex(row["text"]).decode(errors="replace")
+                hit = next((e for e in known if e.get("role") == "roundtrip" and re.search(e["pattern"], txt)), None)
+                what = f"grammar text {txt!r} is read back as {row['got'] or row['res']} instead of {r['want']}"
+                if hit is not None:
+                    if not any(h[0] is hit for h in ctx.known_hits): ctx.known_hits.append((hit, hit["what"] + f" [witness: {txt!r}]"))
+                else:
+                    pth = save_replay(ctx, f"roundtrip-{abs(hash(row['text'])) % 10**8}.json", {"kind": "roundtrip", "text": row["text"], "want": r["want"]})
+                    ctx.violations.append((what, pth, row["text"]))
+    ctx.log(f"(C) round trip: {len(resC)} written rules, {pc} paths over symbolic spacing / literal characters, {time.time()-t1:.1f}s")
     # native validation of (A) through the hook
     lines = [row["inp"] for r in resA for row in r["rows"] if row.get("inp")]
     reps = native.run_lines("unescape", lines) if lines else []
@@ -223,7 +243,7 @@ def run(ctx):
             ctx.violations.append((what, pth, g))
     ctx.log(f"native validation: {validated} unescape paths agree, {len(enc)} encoder mismatches, {len(bad)} accepted-but-unescapable literals, {len(events)} events")
     cov = {"explanation": "reduced form of C07: only the unescaping kernel and its agreement with the literal token syntax are decided; precedence/associativity, counts, PEEK indices and the round trip through concrete syntax are not (see DESIGN.md)",
-           "evaluations": pa + pb, "distinct_nontrivial": pa, "paths_unescape": pa, "paths_accepted_tokens": pb, "traces_validated_against_impl": validated,
+           "evaluations": pa + pb + pc, "distinct_nontrivial": pa, "paths_roundtrip": pc, "roundtrip_rules": len(resC), "paths_unescape": pa, "paths_accepted_tokens": pb, "traces_validated_against_impl": validated,
            "samples": [row["inp"] for r in resA for row in r["rows"][:1] if row.get("inp")][:6] + [row["inp"] for r in resB for row in r["rows"][:1] if row.get("inp")][:4],
            "functions_encoded": sorted(set(f for r in resA + resB for f in r["fns"]))[:200],
            "bounds": f"(A) every valid UTF-8 string of 0..{N} bytes + 14 escape templates with symbolic hex digits / escape letters; (B) every text of 2..{N+1} bytes and 10 templates accepted by the checked-in meta-parser's `string` / `character` rules",
@@ -232,12 +252,17 @@ def run(ctx):
                    {"repo_hashes": repo_hashes(["meta/src/parser.rs", "meta/src/grammar.pest", "meta/src/grammar.rs"])})
     if ctx.violations: return
     if enc: raise Inconclusive(f"ENCODER-MISMATCH on {len(enc)} paths, e.g. {enc[0]}")
-    if events: raise Inconclusive(f"{len(events)} events, e.g. {events[0]}")
+    if events or eventsC: raise Inconclusive(f"{len(events) + len(eventsC)} events, e.g. {(events + eventsC)[0]}")
 
 
 def replay(ctx, path):
     d = json.load(open(path))
     native.build()
+    if d["kind"] == "roundtrip":
+        rep = native.run_lines("grammar", [d["text"]])[0]
+        st = __import__("pegsym").parse_front_reply(rep)
+        print(bytes.fromhex(d["text"]).decode(errors="replace")); print("read back:", st.get("ast") or st.get("error")); print("written:  ", d["want"])
+        print(f"VIOLATION property=C07 replay={path}  (compare the two lines above)"); return 1
     if d["kind"] == "unescape":
         rep = native.run_lines("unescape", [d["input"]])[0]
         print(rep, "| want", d["want"])
@@ -249,3 +274,203 @@ def replay(ctx, path):
     if rep.startswith("PANIC"):
         print(f"VIOLATION property=C07 replay={path}"); return 1
     return 0
+
+
+# ================================================================== (C) the reader reconstructs the grammar that was written
+# abstract expressions (same tuple forms as pegsym.parse_rules) are written in concrete syntax with only the parentheses
+# that precedence requires; some separators are symbolic whitespace bytes and some literal characters are symbolic; the
+# real parse + consume_rules (incl. validate_ast) are executed from MIR and the resulting ast::Rule must be the one written.
+import itertools, random
+PREC = {"choice": 1, "seq": 2, "pos": 3, "neg": 3}
+
+
+def prec(e):
+    return PREC.get(e[0], 4 if e[0] in ("opt", "rep", "rep_once", "rep_exact", "rep_min", "rep_max", "rep_min_max") else 5)
+
+
+def write(e, toks):
+    """append tokens (strings; a literal's content may be a list of byte values/symbols) for expression e"""
+    k = e[0]
+    def sub(x, minp):
+        if prec(x) < minp:
+            toks.append("("); write(x, toks); toks.append(")")
+        else: write(x, toks)
+    if k == "str": toks.append(("lit", '"', e[1]))
+    elif k == "insens": toks.append("^"); toks.append(("lit", '"', e[1]))
+    elif k == "range": toks.append(("lit", "'", e[1])); toks.append(".."); toks.append(("lit", "'", e[2]))
+    elif k == "ident": toks.append(e[1])
+    elif k == "peek_slice": toks.append("PEEK"); toks.append("["); toks += ([str(e[1])] if e[1] is not None else []) + [".."] + ([str(e[2])] if e[2] is not None else []); toks.append("]")
+    elif k == "push": toks.append("PUSH"); toks.append("("); write(e[1], toks); toks.append(")")
+    elif k in ("pos", "neg"): toks.append("&" if k == "pos" else "!"); sub(e[1], 3)
+    elif k in ("seq", "choice"):
+        sub(e[1], prec(e)); toks.append("~" if k == "seq" else "|"); sub(e[2], prec(e) + 1)
+    elif k == "opt": sub(e[1], 4); toks.append("?")
+    elif k == "rep": sub(e[1], 4); toks.append("*")
+    elif k == "rep_once": sub(e[1], 4); toks.append("+")
+    elif k == "rep_exact": sub(e[2], 4); toks += ["{", str(e[1]), "}"]
+    elif k == "rep_min": sub(e[2], 4); toks += ["{", str(e[1]), ",", "}"]
+    elif k == "rep_max": sub(e[2], 4); toks += ["{", ",", str(e[1]), "}"]
+    elif k == "rep_min_max": sub(e[3], 4); toks += ["{", str(e[1]), ",", str(e[2]), "}"]
+    else: raise ValueError(k)
+
+
+NOGAP_AFTER = set()
+
+
+def render(name, mod, e, holes, lead_bar=False):
+    """-> list of byte values / z3 symbols; separators listed in `holes` (indices into the token gaps) are symbolic"""
+    toks = [name, "="] + ([mod] if mod else []) + ["{"] + (["|"] if lead_bar else [])
+    write(e, toks); toks.append("}")
+    out = []; syms = []
+    for i, t in enumerate(toks):
+        if isinstance(t, tuple):
+            out.append(ord(t[1])); out += list(t[2]); out.append(ord(t[1]))
+        else:
+            out += list(t.encode())
+        if i + 1 < len(toks):
+            # `PEEK[`, `PUSH(` and `'a'..'b'` pieces are separate tokens of non-atomic rules: whitespace is legal between them
+            if i in holes:
+                h = z3.BitVec(f"w{i}", 8); syms.append(h); out.append(h)
+            else:
+                out.append(0x20)
+    return out, syms, len(toks) - 1
+
+
+def ast_of(I, P, rule):
+    """ast::Rule value in the executor's heap -> (name, type, expr tuple with literal contents as value lists)"""
+    def s(v): return list(v.f)
+    def ex(v):
+        v = I.deref(v) if type(unwrap_ptr(v)) is Ptr else v
+        k = v.var
+        b = lambda i: ex(v.f[i])
+        if k == "Str": return ("str", s(v.f[0]))
+        if k == "Insens": return ("insens", s(v.f[0]))
+        if k == "Range": return ("range", s(v.f[0]), s(v.f[1]))
+        if k == "Ident": return ("ident", bytes(v.f[0].f).decode())
+        if k == "PeekSlice":
+            sg = lambda x: x - (1 << 32) if x >> 31 else x
+            return ("peek_slice", sg(v.f[0]), sg(v.f[1].f[0]) if v.f[1].idx == 1 else None)
+        if k == "PosPred": return ("pos", b(0))
+        if k == "NegPred": return ("neg", b(0))
+        if k == "Seq": return ("seq", b(0), b(1))
+        if k == "Choice": return ("choice", b(0), b(1))
+        if k == "Opt": return ("opt", b(0))
+        if k == "Rep": return ("rep", b(0))
+        if k == "RepOnce": return ("rep_once", b(0))
+        if k == "RepExact": return ("rep_exact", v.f[1], b(0))
+        if k == "RepMin": return ("rep_min", v.f[1], b(0))
+        if k == "RepMax": return ("rep_max", v.f[1], b(0))
+        if k == "RepMinMax": return ("rep_min_max", v.f[1], v.f[2], b(0))
+        if k == "Push": return ("push", b(0))
+        raise Unsupported("ast expr " + k)
+    return (bytes(rule.f[0].f).decode(), rule.f[1].var, ex(rule.f[2]))
+
+
+def same_ast(W, a, b):
+    if type(a) is not type(b): return False
+    if isinstance(a, tuple): return len(a) == len(b) and all(same_ast(W, x, y) for x, y in zip(a, b))
+    if isinstance(a, list):
+        if len(a) != len(b): return False
+        for x, y in zip(a, b):
+            if x is y: continue
+            if is_sym(x) or is_sym(y):
+                if not W.must(x == y): return False
+            elif x != y: return False
+        return True
+    return a == b
+
+
+MODNAME = {"": "Normal", "_": "Silent", "@": "Atomic", "$": "CompoundAtomic", "!": "NonAtomic"}
+
+
+def explore_roundtrip(args):
+    P, name, mod, e, holes, lead_bar, symlit = args
+    ex = Explorer(max_steps=4_000_000)
+    # literal contents: optionally make the first byte of the first literal symbolic (a printable ASCII char that needs no escape)
+    lit_sym = None
+    def subst(x):
+        nonlocal lit_sym
+        if isinstance(x, tuple):
+            if x[0] in ("str", "insens") and symlit and lit_sym is None and x[1]:
+                lit_sym = z3.BitVec("c0", 8)
+                return (x[0], [lit_sym] + list(x[1][1:]))
+            return tuple(subst(y) for y in x)
+        return x
+    e2 = subst(e)
+    text, syms, ngaps = render(name, mod, e2, holes, lead_bar)
+    for h in syms: ex.add_base(z3.Or(h == 0x20, h == 0x09, h == 0x0A))
+    if lit_sym is not None: ex.add_base(z3.UGE(lit_sym, 0x20), z3.ULE(lit_sym, 0x7E), lit_sym != 0x22, lit_sym != 0x5C)
+    rows = []; fns = set()
+    want = (name, MODNAME[mod], e2)
+
+    def norm(x):
+        if isinstance(x, tuple): return tuple(norm(y) for y in x)
+        if isinstance(x, (bytes, bytearray)): return list(x)
+        return x
+    want = norm(want)
+
+    def body(W):
+        W.globals["CALL_LIMIT"] = 0; W.globals["ERROR_DETAIL"] = False
+        I = Interp(P, W, S)
+        inp = SliceRef(VecObj(list(text), "input"), 0, len(text), True)
+        try:
+            r = I.call("", "parser::parse", [I.make_adt("parser::Rule::grammar_rules", []), inp])
+            if r.idx != 0: return {"res": "rejected by the meta-grammar"}
+            rr = I.call("", "parser::consume_rules", [r.f[0]])
+        except Panic as e_:
+            return {"res": f"panic: {e_}"}
+        fns.update(I.fn_used)
+        if rr.idx != 0: return {"res": "consume_rules returned errors"}
+        rules = rr.f[0].f
+        if len(rules) != 1: return {"res": f"{len(rules)} rules read"}
+        got = ast_of(I, P, rules[0])
+        return {"res": "ok" if same_ast(W, got, want) else "different", "got": got}
+
+    for W, res in ex.explore(body):
+        if isinstance(res, Exception):
+            rows.append({"event": f"{type(res).__name__}: {res}"}); continue
+        m = W.get_model()
+        t = bytes((m.eval(b, model_completion=True).as_long() if is_sym(b) else b) for b in text)
+        rows.append({"text": t.hex(), "res": res["res"], "got": str(res.get("got"))[:300] if res["res"] != "ok" else None})
+    return {"expr": str(e)[:200], "rows": rows, "want": str(want)[:300], "queries": ex.nqueries, "solver_s": ex.solver_time, "fns": fn_evidence(fns)}
+
+
+def abstract_exprs(seed, count):
+    rng = random.Random(seed)
+    atoms = [("str", b"a"), ("str", b"ab"), ("insens", b"ab"), ("range", b"a", b"z"), ("ident", "b"), ("ident", "ANY"), ("peek_slice", 1, None), ("peek_slice", -2, 3), ("peek_slice", None, -1) if False else ("peek_slice", 0, 1),
+             ("str", b""), ("push", ("ident", "b"))]
+    out = list(atoms)
+    un = lambda x: [("opt", x), ("rep", x), ("rep_once", x), ("rep_exact", 2, x), ("rep_min", 3, x), ("rep_max", 4, x), ("rep_min_max", 1, 5, x), ("pos", x), ("neg", x), ("push", x)]
+    A, B, C = ("ident", "b"), ("str", b"a"), ("ident", "ANY")
+    for x in (A, B): out += un(x)
+    # every pair of operator levels, both nestings: precedence and associativity
+    for k1, k2 in itertools.product(("seq", "choice"), repeat=2):
+        out += [(k1, (k2, A, B), C), (k1, A, (k2, B, C))]
+    for u in un(A):
+        out += [("seq", u, B), ("choice", B, u), ("neg", u), ("opt", ("neg", A)), ("rep", ("pos", B))] + [w for w in un(u)[:3]]
+    out += [("neg", ("seq", A, B)), ("rep", ("choice", A, B)), ("rep_exact", 2, ("seq", A, ("opt", B))), ("seq", ("neg", A), ("rep", C)), ("choice", ("seq", A, ("neg", B)), ("pos", ("rep_once", C))),
+            ("push", ("seq", A, ("rep", B))), ("seq", ("insens", b"x"), ("range", b"0", b"9")), ("choice", ("choice", ("choice", A, B), C), A), ("seq", A, ("seq", B, ("seq", C, A)))]
+    seen = set(); res = []
+    for e in out:
+        if str(e) in seen: continue
+        seen.add(str(e)); res.append(e)
+    rng.shuffle(res)
+    return res[:count]
+
+
+def run_roundtrip(ctx, P):
+    rng = random.Random(ctx.seed)
+    count = int(os.environ.get("VERIF_C07_EXPRS", "60" if ctx.quick else "400"))
+    nh = 2 if ctx.quick else 3
+    jobs = []
+    for e in abstract_exprs(ctx.seed, count):
+        toks = ["a", "=", "{"]; write(e, toks); ng = len(toks) + 0
+        gaps = list(range(ng))
+        for mod in (rng.choice(["", "_", "@", "$", "!"]),):
+            holes = set(rng.sample(gaps, min(nh, len(gaps))))
+            jobs.append((P, "a", mod, e, holes, False, True))
+        jobs.append((P, "a", "", e, set(rng.sample(gaps[3:] or gaps, min(nh, len(gaps[3:] or gaps)))), e[0] == "choice", False))
+    res = par.pmap(explore_roundtrip, jobs, NCPU)
+    errs = [(j[3], r[1]) for j, r in zip(jobs, res) if r[0] == "err"]
+    if errs: raise Inconclusive(f"round-trip exploration failed on {len(errs)} expressions, e.g. {errs[0][0]}: {errs[0][1][:1500]}")
+    return [r[1] for r in res]
